@@ -72,8 +72,8 @@ def replay(scn):
     op = i["op"]
     viol, calls = [], 0
     d = i["d"] - 1
-    for kind in ("i", "f", "s"):
-        codec = A.LabelCodec()
+    for kind, off in (("i", 0), ("f", 0), ("s", 0), ("i", -4)):
+        codec = A.LabelCodec(offset=off)        # the shifted variant has labels 0 and negative labels
         kinds = [kind] * len(a_abs["dims"])
         for form in (0, 1, 2):
             a = A.gamma(a_abs, codec, kinds)
@@ -113,7 +113,7 @@ def replay(scn):
                         kw["minvalid"] = i["minvalid"][0]
                     res = a.dropna(axis=ax, **kw)
                 elif op == "fillna":
-                    v = A.cell_enc(888, i["fkind"])
+                    v = A.cell_enc(888, i["fkind"]) if off == 0 else (0 if i["fkind"] == "i" else 0.0)      # falsy fill value
                     if form == 0:
                         res = a.fillna(v)
                     else:
@@ -144,9 +144,11 @@ def replay(scn):
                 try:
                     act = A.project(res, codec)
                     e = dict(exp, kinds=kinds)
+                    if op == "fillna" and off != 0:
+                        e = dict(e, cells=[0 if c == 888 else c for c in e["cells"]])
                     what = A.compare(e, act, dtype_any=[exp["dtype"]] + (["f"] if op in ("fillna", "setna") else [])) or None
                 except A.Unprojectable as ex:
                     what = "result not projectable: %s" % ex
             if what:
-                viol.append(dict(what=what, sig=signature(scn, "kind=%s/form=%d" % (kind, form)), variant=variant))
+                viol.append(dict(what=what, sig=signature(scn, "kind=%s%s/form=%d" % (kind, ("@%d" % off) if off else "", form)), variant=variant))
     return dict(violations=viol, calls=calls)
